@@ -408,6 +408,16 @@ Definition aead_footer (tag : list Z) : list Z :=
   ++ repz 0 (field_off aead_layout "size" - field_off aead_layout "data" - len tag)
   ++ le_bytes 4 (len tag) ++ le_bytes 4 Gen.EnvelopeTables.envelope_aead_footer_version.
 
+(* the three stored regions an alteration can hit *)
+Definition stored_header (file : list Z) : list Z := takez file BLOCK.
+Definition stored_ct (file : list Z) : list Z := takez (dropz file BLOCK) (len file - 2 * BLOCK).
+Definition stored_tag (file : list Z) : option (list Z) :=
+  let fb := dropz file (len file - BLOCK) in
+  match get_bytes aead_layout fb "data", get_uint false aead_layout fb "size" with
+  | Some d, Some n => Some (takez d n)
+  | _, _ => None
+  end.
+
 (* the attributes a writer stores for (key, iv): key info, cipher name, key hash, IV *)
 Definition sealed_attrs (sha : list Z -> list Z) (attrs : list attr) (key iv : list Z) : Prop :=
   (exists a, dict_get attrs N_keyInfo = Some a) /\
